@@ -220,6 +220,21 @@ def run(F, R, tier):
         B = mir.Body(fe, F)
         aggs = contracts.agg_fields(B, "proxy::Claims")
         R.check(len(aggs) == 1, "C03.R5", "C03.R5:%s:one-construction" % fe["id"], "-", "Claims is constructed at one place")
+        # ... and that construction is the only thing the function can return as Ok (no cached / remembered claims)
+        pay = set()
+        for blk in B.blocks:
+            if blk["cleanup"]:
+                continue
+            for s in blk["stmts"]:
+                if s["k"] == "assign" and s["lhs"]["l"] == 0 and s["rv"]["k"] == "agg" and s["rv"].get("variant") == "Ok":
+                    pay |= B.origins(s["rv"]["ops"][0])
+        for o in B.origins(contracts.RET):
+            if not (o[0] == "agg" and str(o[1]).endswith("Result::Ok")) and not (o[0] == "call" and q.ends(o[1], "proxy::get_user")):
+                pay.add(o)
+        okp = bool(pay) and all(o[0] == "agg" and "proxy::Claims" in str(o[1]) for o in pay)
+        R.check(okp, "C03.R5", "C03.R5:%s:fresh-claims" % fe["id"], "-",
+                "every Ok result is the Claims value built from this call's record (nothing cached or remembered across connections)",
+                "from_audit_entry can return claims that were not built from this call's record: %s" % sorted(map(str, pay)))
         for bi, fl in aggs:
             def param_is(o, path):
                 org = B.origins(o)
